@@ -107,6 +107,10 @@ def histories(tier):
         c3 = [{"op": "item", "a": R(11), "i": 0}, BIN("mul", R(12), R(12)), BIN("mul", R(13), R(12))]
         H.append(("midprove/%d,%d" % (a, b), [S(a), U(b), sub("f", [R(0)], c1, R(4)), {"op": "prove"}, sub("f", [R(1)], c2, R(9)),
                                               sub("g", [R(5)], c3, R(14)), VAL(R(15))]))
+    # operands that differ by a multiple of the prime (zero in the field, non-zero as integers): the zero test needs an inverse that
+    # does not exist -- the call must refuse, and whatever it does every equation written must stay satisfied
+    for nm, st in (("eq", BIN("eq", R(0), R(1))), ("ne", BIN("ne", R(0), R(1))), ("assert_ne", {"op": "meth", "name": "assert_ne", "a": R(0), "args": [R(1)]})):
+        H.append(("wrap/%s" % nm, [S(P + 5), S(5), st, BIN("mul", R(0), R(1)), VAL(R(3))]))
     # a comparison inside a sub-circuit (uses the global constant one)
     cmpb = [{"op": "item", "a": R(1), "i": 0}, BIN("eq", R(2), {"c": 3})]
     H.append(("cmpinside/3", [S(3), sub("h", [R(0)], cmpb, R(2)), {"op": "peek", "a": {"c": 0}}]))
